@@ -548,6 +548,10 @@ def check_design(clif_text, layout, rtl, timeout_ms=20000):
             if e["kind"] != "comb":
                 raise Unsupported("flip-flop storage in a comb-only design")
             nb, w = v["native_bytes"], v["width"]
+            if e.get("const_init") is not None:
+                # a param / const: its cell holds the value written at build time
+                mem.store("comb", e["off"], z3.BitVecVal(int(e["const_init"], 16), 8 * nb), nb)
+                continue
             old = z3.BitVec(f"old_{v['path']}_{k}", w)
             olds.append(old)
             mem.store("comb", e["off"], z3.ZeroExt(8 * nb - w, old) if 8 * nb > w else old, nb)
